@@ -57,6 +57,8 @@ func geom(g string) (int, uint32) {
 		return 4096, 1
 	case "8x2": // 8 bytes, two functions: the items of one filter are (almost surely) absent from the other
 		return 8, 2
+	case "4x8": // 4 bytes, EIGHT functions (the usual counts are 5..20: code may treat "many functions" specially)
+		return 4, 8
 	}
 	return 1, 2
 }
@@ -74,6 +76,8 @@ func reloadBytes(g string) []byte {
 		return make([]byte, 4096)
 	case "8x2":
 		return make([]byte, 5)
+	case "4x8":
+		return make([]byte, 3)
 	}
 	return []byte{0xff, 0xff}
 }
